@@ -159,7 +159,11 @@ def run_case(case):
         gns = earth.gravity_n(np.array([lat_d, lat_d]), np.array([alt, alt]))
         if gns.shape != (2, 3) or (gns[0] != gn).any():
             v('c16-forms', 'stacked gravity_n differs from scalar')
-        gc = ni.gravity(lat_d, alt)
+        try:
+            gc = ni.gravity(lat_d, alt)
+        except Exception as e:  # noqa  (compiled code leaves no Python frame in the traceback)
+            v('c16-gravity-compiled-exception', 'compiled gravity raised %s: %s' % (type(e).__name__, e))
+            gc = g
         if abs(gc - g) > 2 * np.spacing(g):
             v('c16-gravity-compiled', 'compiled gravity copy %r differs from earth.gravity %r at (%r,%r)'
               % (gc, float(g), lat_d, alt))
@@ -176,7 +180,7 @@ def run_case(case):
     # ------------------------------------------------------------- first-order statements
     if abs(lat_d) <= 85.0:
         tl = 1 + abs(np.tan(lat))
-        for alt in (0.0, 10e3):
+        for alt in (0.0, 10e3, 100e3):
             lla = np.array([lat_d, lon_d, alt])
             rn, re, rp = earth.principal_radii(lat_d, alt)
             for dvec in ([1.0, 0, 0], [0, 1.0, 0], [0, 0, 1.0], [0.6, -0.64, 0.48]):
